@@ -13,10 +13,13 @@
 #include "xfloat.c"
 #include "foam_c.h"
 #include <stdint.h>
+#include <float.h>
 #include <inttypes.h>
 #include <string.h>
 #include <stdio.h>
 #include <stdlib.h>
+
+extern Bool cmdFloatRepFlag;	/* util.c (-Wfloatrep) */
 
 /* ---- helpers ---------------------------------------------------------- */
 
@@ -105,6 +108,7 @@ static void params(void) {
 	P(XSF_ExponMask); P(XSF_ExponMin); P(XSF_ExponNAN); P(XSF_LgBase);
 	P(XDF_FracShift); P(XDF_FracIx0); P(XDF_FracSh0); P(XDF_SignMask); P(XDF_FracMask);
 	P(XDF_ExponMask); P(XDF_ExponMin); P(XDF_ExponNAN); P(XDF_LgBase);
+	P(DBL_DIG); P(FLT_DIG); P(MAX_FLOAT_SIZE);
 	P(FLOAT_NORM); P(FLOAT_DENORM); P(FLOAT_ZERO); P(FLOAT_NAN); P(FLOAT_INF);
 #undef P
 	/* the C arithmetic type behind the typedefs used at the literal-conversion sites */
@@ -278,6 +282,15 @@ static void op_line(char *line) {
 		fiDFloDissemble((FiDFlo) d_of(be2u(nb, 8)), &s, &e, &sig0, &sig1);
 		g = fiDFloAssemble(s, e, sig0, sig1);
 		u2be(u_of_d((double) g), back, 8); puthex(back, 8); printf("\n");
+	}
+	else if (IS("dsp", 2)) {	/* util.c DFloatSprint under cmdFloatRepFlag = tok[1] */
+		unsigned char nb[8]; char buf[200]; double f;
+		if (hex2bytes(tok[2], nb, 8)) goto bad;
+		f = d_of(be2u(nb, 8));
+		cmdFloatRepFlag = atoi(tok[1]) != 0;
+		DFloatSprint(buf, f);
+		cmdFloatRepFlag = false;
+		printf("%s\n", buf);
 	}
 	else if (IS("shu", 3)) {	/* in place, bF = 0 : the only shape xfloat.c uses */
 		unsigned char b[16]; int nb = atoi(tok[1]), nsh = atoi(tok[3]);
